@@ -114,9 +114,13 @@ def concretise(hist, payload=default_payload, skin=None, k0=0):
     # hunk geometry: start positions and counts are derived from the bodies
     n = len(hist)
     koff = k0
+    kd = ""
     for k0, l in enumerate(hist):
-        k = k0 + 1 + skin.get("k0", 0) if False else k0 + 1 + koff
+        k = k0 + 1 + koff
         c, f, g = l["c"], l["f"], l["g"]
+        if c == "diff":
+            kd = l.get("kd", "")
+        comb = kd == "cc"
         if c == "commit":
             t = "commit " + ("%040x" % (0x1234567890abcdef1234567890abcdef12345678 + k))
         elif c == "other":
@@ -125,8 +129,12 @@ def concretise(hist, payload=default_payload, skin=None, k0=0):
                 t = t.decode("latin-1")  # raw bytes travel as latin-1 and are re-encoded below
         elif c == "blank":
             t = ""
+        elif c == "diff" and comb:
+            t = "diff --cc " + plain_path(f, skin)
         elif c == "diff":
             t = f"diff --git {path(f, 'a', skin)} {path(g, 'b', skin)}"
+        elif c == "index" and comb:
+            t = "index 1111111,2222222..3333333"
         elif c == "index":
             t = "index 1111111..2222222 100644"
         elif c == "newfile":
@@ -157,7 +165,7 @@ def concretise(hist, payload=default_payload, skin=None, k0=0):
             # count body lines of this hunk
             nm = np_ = 0
             j = k0 + 1
-            while j < n and hist[j]["c"] in ("minus", "plus", "zero", "nonl"):
+            while j < n and hist[j]["c"] in ("minus", "plus", "zero", "nonl", "cin", "m_ours", "m_anc", "m_theirs", "m_end"):
                 cc = hist[j]["c"]
                 nm += cc in ("minus", "zero")
                 np_ += cc in ("plus", "zero")
@@ -165,13 +173,26 @@ def concretise(hist, payload=default_payload, skin=None, k0=0):
             start = skin.get("start", 10) + 100 * k
             fr = skin.get("frag", "std")
             frag = {"std": f" fragZ{k}Z", "none": "", "numbers": f" fragZ{k}Z = -1; x +5,2 @@ y", "space": " "}[fr]
-            t = f"@@ -{start},{nm} +{start + 3},{np_} @@{frag}"
+            if comb:
+                t = f"@@@ -{start},{nm} -{start + 1},{nm} +{start + 3},{np_} @@@{frag}"
+            else:
+                t = f"@@ -{start},{nm} +{start + 3},{np_} @@{frag}"
         elif c == "minus":
-            t = "-" + payload(k, c)
+            t = (["- ", " -", "--"][k % 3] if comb else "-") + payload(k, c)
         elif c == "plus":
-            t = "+" + payload(k, c)
+            t = (["+ ", " +", "++"][k % 3] if comb else "+") + payload(k, c)
         elif c == "zero":
-            t = " " + payload(k, c)
+            t = ("  " if comb else " ") + payload(k, c)
+        elif c == "cin":
+            t = ["+ ", " +", "++"][k % 3] + payload(k, c)
+        elif c == "m_ours":
+            t = "++<<<<<<< HEAD"
+        elif c == "m_anc":
+            t = "++||||||| baseZ1"
+        elif c == "m_theirs":
+            t = "++======="
+        elif c == "m_end":
+            t = "++>>>>>>> branchZ2"
         elif c == "nonl":
             t = "\\ No newline at end of file"
         else:
@@ -187,9 +208,15 @@ def concretise(hist, payload=default_payload, skin=None, k0=0):
 def line_events(hist, texts, intern, tabs=8):
     """Per-line records for the trace (mechanical: split marker / payload, intern bytes)."""
     evs = []
+    kd = ""
     for l, t in zip(hist, texts):
         c = l["c"]
-        if c in ("minus", "plus", "zero"):
+        if c == "diff":
+            kd = l.get("kd", "")
+        comb = kd == "cc"
+        if c in ("minus", "plus", "zero", "cin") and comb:
+            pre, pay = t[:2], t[2:]
+        elif c in ("minus", "plus", "zero"):
             pre, pay = t[:1], t[1:]
         elif c == "commit":
             pre, pay = "", t
@@ -199,13 +226,13 @@ def line_events(hist, texts, intern, tabs=8):
         if c == "nonl" or c == "blank" or c == "other":
             pass
         evs.append({"c": c, "f": l["f"], "g": l["g"], "kd": l.get("kd", ""), "pre": cps(pre), "pay": cps(pay),
-                    "bid": intern(b)})
+                    "bid": intern(b), "comb": comb})
     return evs
 
 
 # ---- row parser -----------------------------------------------------------------------------------
 
-_BOX = set("─━│┃┌┐└┘├┤┬┴┼╌═║ ")
+_BOX = set("─━│┃┌┐└┘├┤┬┴┼╌═║ ▼▲")
 
 
 def span_kind(fg, bg, attrs=frozenset()):
